@@ -575,52 +575,7 @@ func c05(c *Ctx) {
 	})
 
 	c.Rule("C05.R6", "tag buffer provenance in the lexer: l.tags is only nil, the pooled metric's own buffer, or append(l.tags, string(...)); outputs take l.tags", 5, func(r *Rule) {
-		n := 0
-		for _, fn := range pkgFuncs(w, lexPkg) {
-			for _, st := range fieldStores(fn, "Lexer", "tags") {
-				n++
-				key := "tags-store:" + FuncName(fn)
-				ok := false
-				desc := pathOf(st.Val)
-				switch v := st.Val.(type) {
-				case *ssa.Const:
-					ok = v.Value == nil
-				case *ssa.UnOp:
-					ok = pathOf(v) == "l.m.Tags"
-					if ok {
-						// l.m must be the metric just taken from the pool in this function
-						ok = false
-						for _, s2 := range fieldStores(fn, "Lexer", "m") {
-							if cl, isC := s2.Val.(*ssa.Call); isC && isCall(cl, "(*internal/pool.MetricPool).Get") && instrDominates(s2, st) {
-								ok = true
-							}
-						}
-					}
-				case *ssa.Call:
-					ok = isCall(v, "builtin append") && pathOf(v.Call.Args[0]) == "l.tags"
-				}
-				r.Check(key, ok, st.Pos(), "l.tags <- "+desc+" (a re-sliced old buffer would alias the previous line's tags)")
-			}
-			for _, T := range []string{"Metric", "Event"} {
-				for _, st := range fieldStores(fn, T, "Tags") {
-					r.Check("output-tags:"+FuncName(fn)+":"+T, pathOf(st.Val) == "l.tags", st.Pos(), T+".Tags <- "+pathOf(st.Val))
-				}
-			}
-		}
-		r.Check("tags-store-sites", n >= 3, token.NoPos, fmt.Sprintf("%d stores to l.tags", n))
-		// pooled metrics: Reset keeps only the tag buffer (length 0); Get resets reused metrics
-		mr := w.Func("", "(*Metric).Reset")
-		if mr != nil {
-			ok := false
-			for _, st := range fieldStores(mr, "Metric", "Tags") {
-				if sl, isS := st.Val.(*ssa.Slice); isS {
-					if hi, isC := constInt(sl.High); isC && hi == 0 {
-						ok = true
-					}
-				}
-			}
-			r.Check("Metric.Reset:tags-truncated", ok, mr.Pos(), "Reset truncates Tags to length 0")
-		}
+		lexerTagsProvenance(c, r)
 	})
 
 	c.Rule("C05.R7", "tags are copied when a metric is folded into a map: NewCounter/NewGauge/NewSet/NewTimer store tags.Copy(); Copy returns fresh storage", 5, func(r *Rule) {
@@ -754,3 +709,55 @@ func firstSendOrSelect(fn *ssa.Function) ssa.Instruction {
 	}
 	return out
 }
+
+// lexerTagsProvenance (C05.R6, C19.R5): where the lexer's tag slice may come from.
+func lexerTagsProvenance(c *Ctx, r *Rule) {
+	w := c.W
+
+		n := 0
+		for _, fn := range pkgFuncs(w, lexPkg) {
+			for _, st := range fieldStores(fn, "Lexer", "tags") {
+				n++
+				key := "tags-store:" + FuncName(fn)
+				ok := false
+				desc := pathOf(st.Val)
+				switch v := st.Val.(type) {
+				case *ssa.Const:
+					ok = v.Value == nil
+				case *ssa.UnOp:
+					ok = pathOf(v) == "l.m.Tags"
+					if ok {
+						// l.m must be the metric just taken from the pool in this function
+						ok = false
+						for _, s2 := range fieldStores(fn, "Lexer", "m") {
+							if cl, isC := s2.Val.(*ssa.Call); isC && isCall(cl, "(*internal/pool.MetricPool).Get") && instrDominates(s2, st) {
+								ok = true
+							}
+						}
+					}
+				case *ssa.Call:
+					ok = isCall(v, "builtin append") && pathOf(v.Call.Args[0]) == "l.tags"
+				}
+				r.Check(key, ok, st.Pos(), "l.tags <- "+desc+" (a re-sliced old buffer would alias the previous line's tags)")
+			}
+			for _, T := range []string{"Metric", "Event"} {
+				for _, st := range fieldStores(fn, T, "Tags") {
+					r.Check("output-tags:"+FuncName(fn)+":"+T, pathOf(st.Val) == "l.tags", st.Pos(), T+".Tags <- "+pathOf(st.Val))
+				}
+			}
+		}
+		r.Check("tags-store-sites", n >= 3, token.NoPos, fmt.Sprintf("%d stores to l.tags", n))
+		// pooled metrics: Reset keeps only the tag buffer (length 0); Get resets reused metrics
+		mr := w.Func("", "(*Metric).Reset")
+		if mr != nil {
+			ok := false
+			for _, st := range fieldStores(mr, "Metric", "Tags") {
+				if sl, isS := st.Val.(*ssa.Slice); isS {
+					if hi, isC := constInt(sl.High); isC && hi == 0 {
+						ok = true
+					}
+				}
+			}
+			r.Check("Metric.Reset:tags-truncated", ok, mr.Pos(), "Reset truncates Tags to length 0")
+		}
+	}
